@@ -15,7 +15,7 @@ InfE == Bin("*", Lit(D("1e308")), Num(10))
 Cross(A, B(_), F(_, _)) == FlattenSeq([i \in 1..Len(A) |-> LET bs == B(A[i]) IN [j \in 1..Len(bs) |-> F(A[i], bs[j])]])
 
 Vals == << <<"nil", Lit(VNil)>>, <<"true", Lit(VBool(TRUE))>>, <<"zero", Num(0)>>, <<"neg", Neg(Num(3))>>, <<"frac", NumLit("2.5")>>, <<"huge", NumLit("1e308")>>,
-           <<"2p63", NumLit("9223372036854775808")>>, <<"inf", InfE>>, <<"nan", Bin("-", InfE, InfE)>>, <<"str", Str("abc")>>, <<"numstr", Str("12")>>, <<"empty", Str("")>>,
+           <<"2p63", NumLit("9223372036854775808")>>, <<"inf", InfE>>, <<"nan", Bin("-", InfE, InfE)>>, <<"str", Str("abc")>>, <<"str-taka", Lit(VStr(<<2547, 53>>))>>, <<"str-astral", Lit(VStr(<<128512, 8205, 49>>))>>, <<"numstr", Str("12")>>, <<"empty", Str("")>>,
            <<"arr", Id("A")>>, <<"arr0", Arr(<<>>)>>, <<"obj", Id("O")>>, <<"obj0", Obj(<<>>, <<>>)>>, <<"fn", Id("f")>>, <<"nat", Id("len")>>, <<"cyc-arr", Id("CA")>>, <<"cyc-obj", Id("CO")>> >>
 Forms(v, w) == <<
   <<"index", SPrint(Idx(v, w))>>, <<"index-store", SExpr(IAsg(v, w, Num(1)))>>, <<"index0", SPrint(Idx(v, Num(0)))>>, <<"prop", SPrint(Prop(v, "k"))>>, <<"prop-store", SExpr(PAsg(v, "k", w))>>,
